@@ -237,12 +237,13 @@ def run(cx, tier='quick'):
             subn.bad('UNANALYSABLE', fn_.qname, 'name-rules', 'name-resolution rules could not be evaluated: %r' % (e_,), fn_.file, fn_.line)
     cg_ = _CG(cx)
     dis_ = _c17.Discharger(cx, cg_, _MF(cx, cg_))
-    for s_ in _c17.census(cx, list(cx.crate.fns)):
+    sites_ = _c17.census(cx, list(cx.crate.fns))
+    for s_ in sites_:
         if s_.kind == 'loop':
             continue
         r_ = dis_.discharge(s_)
         inst_ = '%s=%s' % (s_.kind, s_.what)
-        if r_:
+        if r_ or (id(s_.fw.fn) in getattr(cx.crate, 'fully_inlined', ()) and _c17.copy_elsewhere(sites_, s_)):
             subn.ok('PANIC', '%s|%s|%s' % (s_.where, inst_, _c17.ctx_hash(s_)))
         else:
             subn.bad('PANIC', s_.where, inst_, 'panic-capable site with no discharge proof: `%s`' % s_.what, s_.fw.fn.file, s_.ev.line)
